@@ -63,6 +63,7 @@ PLAN = {
     "C12": {
         "level": "proof",
         "contracts": ["contracts.parser_cache"],
+        "bounded": ["bounded.c12"],
     },
     "C06": {
         "level": "exploration",
@@ -87,12 +88,14 @@ PLAN = {
     "C02": {
         "level": "proof",
         "contracts": ["contracts.evaluation", "contracts.constraints"],
+        "bounded": ["bounded.c02_c03"],
         "lemmas": True,
     },
     "C03": {
         "level": "proof",
         "lemmas": True,
         "contracts": ["contracts.evaluation", "contracts.search_loop"],
+        "bounded": ["bounded.c02_c03"],
     },
 }
 
@@ -207,11 +210,14 @@ MANIFEST_TEXT = {
     "C12": {
         "text": "Object invariant of the parser's forest cache (an entry holds the complete forest of its key) as an obligation "
                 "at EVERY yield of the real generator Parser.parse_forest and at return, plus ownership (a yielded tree is never "
-                "the cached object) and one yielded tree per forest entry on hit and miss path; all discharged.",
+                "the cached object) and one yielded tree per forest entry on hit and miss path; all discharged. "
+                "Bounded half (not counted as proved): random request histories (forest/first/abandoned/parse_multiple/fuzz, modes, "
+                "str and bytes renderings, other start symbols, damaged hand-outs) on one shared grammar object compared with "
+                "the same request on a new object, over the spec family and three history-sensitive specs.",
         "note": "the iterative (Earley) parser is an assumed contract: the forest is a function of (word, start, mode, hookin_parent); "
                 "deepcopy/collapse/to_derivation_tree return new trees (assumed); Repetition.iteration counters only feed "
                 "origin tags, outside tree equality.",
-        "technique": "contract-based deductive verification: generator invariants at yield points, own VC generator, z3",
+        "technique": "contract-based deductive verification: generator invariants at yield points, own VC generator, z3; plus a bounded model-based history check",
     },
     "C18": {
         "text": "Frame condition over module- and class-level state decided by effect inference over the AST of the whole "
@@ -248,19 +254,23 @@ MANIFEST_TEXT = {
         "text": "Every VC generated from the current source of ConstraintFitness.fitness, Evaluator._evaluate_constraints and "
                 "Evaluator.evaluate_individual is discharged: a tree is yielded only if every hard constraint and every "
                 "repetition bound returned success without raising (for all counts < 2^W and per-constraint totals <= 2^G, "
-                "W/G recorded in the evidence). Proof for all inputs in that range, no iteration bound.",
+                "W/G recorded in the evidence). Proof for all inputs in that range, no iteration bound. "
+                "Bounded half (not counted as proved): the same clause checked at run time on the real "
+                "_evaluate_constraints over all lists of <= 4 stub constraints and on evaluate_individual over the words of "
+                "two grammars against a reference evaluator, so a refactoring that unhooks the loop contract is still refuted.",
         "note": "pyvc encoding of Python trusted; per-constraint fitness() implementations enter through the abstract "
                 "Constraint.fitness contract; evaluate_soft_constraints, DerivationTree.get_root/__hash__ assumed; "
                 "float reasoning in the relaxed standard model for the '<1 stays <1' direction.",
-        "technique": "contract-based deductive verification: own VC generator over the real source, z3+cvc5",
+        "technique": "contract-based deductive verification: own VC generator over the real source, z3+cvc5; plus a bounded run-time contract check",
     },
     "C03": {
         "text": "Postcondition 'all hard constraints and repetition bounds satisfied, key unseen, no soft constraints => the "
                 "individual is yielded' of the real Evaluator.evaluate_individual, discharged in exact IEEE-754 binary64 "
-                "for all h, r < 2^W; the loop of _evaluate_constraints by invariant (exact sum of ones).",
+                "for all h, r < 2^W; the loop of _evaluate_constraints by invariant (exact sum of ones). "
+                "Bounded half (not counted as proved): all-satisfied => 1.0 / emitted, on stub lists and real specs.",
         "note": "pyvc encoding of Python trusted; z3/cvc5 FloatingPoint theory = CPython float arithmetic; counts bounded "
                 "by 2^W (W=8 quick, 10 thorough).",
-        "technique": "contract-based deductive verification: own VC generator over the real source, z3+cvc5 (FP theory)",
+        "technique": "contract-based deductive verification: own VC generator over the real source, z3+cvc5 (FP theory); plus a bounded run-time contract check",
     },
 }
 
